@@ -551,6 +551,10 @@ def run(ctx, rep):
     def reach_with(c):
         def forced(body, bb):
             t = body.term(bb)
+            if t["k"] == "switch" and t["discr_ty"] == "i32":
+                # `match counter { 0 => .., n => .. }`: the only i32 values in matches() are the counters
+                tg = [x for vv, x in t["targets"] if vv == str(c)]
+                return tg[0] if tg else t["otherwise"]
             if t["k"] != "switch" or t["discr_ty"] != "bool":
                 return None
             e = flow.expr_of(body, t["discr"], bb)
@@ -618,29 +622,79 @@ def run(ctx, rep):
     mt = site(r"forget::KeepOptions::matches$")
     rep.require("C09.c", "sites", len(mk) == 1 and len(md) == 1 and len(mt) == 1, where=A.loc(), what="KeepOptions::apply calls must_keep, must_delete and matches once each")
     if len(mk) == 1 and len(md) == 1 and len(mt) == 1:
-        def false_edge_only(test_bb, later_bb):
-            # later_bb reachable only through the false edge of the bool switch on test_bb's result
+        import pathsens
+
+        def force_result(test_bb, val):
+            """forced-successor fn: the bool switch on the result of the call at test_bb takes the edge for `val`"""
             t = A.term(test_bb)
-            sw = t["to"]
-            tt = A.term(sw)
-            if tt["k"] != "switch" or op_local(tt["discr"]) != t["dest"][0]:
-                return False
-            true_t = tt["otherwise"]
-            zero = [x for v, x in tt["targets"] if v == "0"]
-            if not zero:
-                return False
-            # cutting the false edge makes later unreachable from the test
-            return later_bb not in A.reachable_from(sw, cut_edges=[(sw, zero[0])]) and later_bb in A.reachable_from(zero[0])
-        rep.check("C09.c", "keep-before-delete", false_edge_only(mk[0], md[0]), where=where(A, mk[0]), what="must_delete is consulted only if must_keep is false (a protected snapshot is never deleted)")
-        rep.check("C09.c", "delete-before-matches", false_edge_only(md[0], mt[0]), where=where(A, md[0]), what="keep rules are consulted only if must_delete is false (an expired snapshot is not kept by a keep rule)")
-        rep.check("C09.c", "keep-before-matches", false_edge_only(mk[0], mt[0]), where=where(A, mk[0]), what="keep rules are consulted only if must_keep is false")
-        # delete_unchanged is consulted only for snapshots that are neither protected nor expired
+            dl = t["dest"][0]
+            aliases, _, _ = flow.forward_aliases(A, dl)
+
+            def fz(body, bb):
+                tt = body.term(bb)
+                if tt["k"] != "switch" or tt["discr_ty"] != "bool" or op_local(tt["discr"]) not in aliases | {dl}:
+                    return None
+                zero = [x for v, x in tt["targets"] if v == "0"]
+                if not zero:
+                    return None
+                return tt["otherwise"] if val else zero[0]
+            return fz
+
+        def str_blocks(lit):
+            import json as _json
+            return {bi for bi, blk in enumerate(A.blocks) if ('"str": ' + _json.dumps(lit)) in _json.dumps(blk)}
+        # decided path-sensitively (bool locals and `match` on a locally built Option/enum are followed): once must_keep /
+        # must_delete answered true, the later stages are unreachable - whatever the spelling (else-if chain, early decision held
+        # in an Option, ...)
+        r_keep = pathsens.reachable_under(A, force_result(mk[0], True))
+        r_del = pathsens.reachable_under(A, force_result(md[0], True))
+        rep.check("C09.c", "keep-before-delete", md[0] not in r_keep and md[0] in A.reachable_from(0), where=where(A, mk[0]), what="must_delete is consulted only if must_keep is false (a protected snapshot is never deleted)")
+        rep.check("C09.c", "delete-before-matches", mt[0] not in r_del, where=where(A, md[0]), what="keep rules are consulted only if must_delete is false (an expired snapshot is not kept by a keep rule)")
+        rep.check("C09.c", "keep-before-matches", mt[0] not in r_keep, where=where(A, mk[0]), what="keep rules are consulted only if must_keep is false")
+        # delete_unchanged applies only to snapshots that are neither protected nor expired: the "unchanged" verdict is
+        # unreachable once must_keep / must_delete answered true
         du = [bi for bi in range(len(A.blocks)) if field_bool_test(A, bi, "delete_unchanged")]
-        rep.require("C09.c", "delete-unchanged-site", len(du) == 1, where=A.loc(), what="KeepOptions::apply tests delete_unchanged once")
-        if len(du) == 1:
-            rep.check("C09.c", "keep-before-unchanged", false_edge_only(mk[0], du[0]), where=where(A, mk[0]), what="delete_unchanged is consulted only if must_keep is false (a protected snapshot is not removed as 'unchanged')")
-            rep.check("C09.c", "delete-before-unchanged", false_edge_only(md[0], du[0]), where=where(A, md[0]), what="delete_unchanged is consulted only if must_delete is false")
-            rep.check("C09.c", "unchanged-before-matches", mt[0] not in A.reachable_from(0, cut_edges=[(du[0], x) for x in A.succ(du[0])]) , where=where(A, du[0]), what="keep rules are consulted only after the delete_unchanged test")
+        unch = str_blocks("unchanged")
+        rep.require("C09.c", "delete-unchanged-site", len(du) == 1 and bool(unch), where=A.loc(), what="KeepOptions::apply tests delete_unchanged once and has an 'unchanged' verdict")
+        if len(du) == 1 and unch:
+            rep.check("C09.c", "keep-before-unchanged", not (unch & set(r_keep)), where=where(A, mk[0]), what="a protected snapshot (must_keep) is never given the 'unchanged' verdict")
+            rep.check("C09.c", "delete-before-unchanged", not (unch & set(r_del)), where=where(A, md[0]), what="the 'unchanged' verdict is not reached once must_delete holds")
+            # precedence of the option over the keep rules: with delete_unchanged on and the next snapshot having the same tree
+            # (the is_some_and(..tree..) test true) the 'unchanged' verdict is reached and matches() is not
+            ff = force_flag("delete_unchanged", True)
+
+            def on(body, bb):
+                f = ff(body, bb)
+                if f is not None:
+                    return f
+                tt = body.term(bb)
+                if tt["k"] == "switch" and tt["discr_ty"] == "bool":
+                    e = flow.expr_of(body, tt["discr"], bb)
+                    neg = False
+                    while e[0] == "un" and e[1] == "Not":
+                        neg = not neg
+                        e = e[2]
+                    if e[0] == "call" and re.search(r"Option::<T>::is_some_and$", e[1]):
+                        zero = [x for v, x in tt["targets"] if v == "0"]
+                        if zero:
+                            return zero[0] if neg else tt["otherwise"]
+                return None
+
+            def ev_on(body, e):
+                if isinstance(e, tuple) and e and e[0] == "call" and re.search(r"Option::<T>::is_some_and$", e[1]):
+                    return True
+                return flag_eval("delete_unchanged", True)(body, e)
+            mkf, mdf = force_result(mk[0], False), force_result(md[0], False)
+
+            def on_all(body, bb):
+                for f_ in (mkf, mdf, on):
+                    r_ = f_(body, bb)
+                    if r_ is not None:
+                        return r_
+                return None
+            r_on = pathsens.reachable_under(A, on_all, eval_expr=ev_on)
+            rep.check("C09.c", "unchanged-before-matches", mt[0] not in r_on and bool(unch & set(r_on)), where=where(A, du[0]),
+                      what="with delete_unchanged on and an identical next snapshot the verdict is 'unchanged' and the keep rules are not consulted")
     # `last` follows every processed snapshot (the period comparison is always against the immediately newer snapshot)
     la = [bi for bi, blk in enumerate(A.blocks) for s_ in blk["s"] if s_[0] == "=" and s_[2][0] == "agg" and s_[2][1][0] == "adt" and s_[2][1][2] == "Some" and "SnapshotFile" in A.locals[s_[1][0]]]
     if len(mt) == 1:
